@@ -325,6 +325,11 @@ func scenario(id string, seed uint64, sh shape, held bool, real string) runner.R
 			}
 		}
 		x.AfterFlush = func(l *prog.RPCLog, side byte, op string) {
+			if closer {
+				// the peer closes the stream from another goroutine in this variant: a half-close on the
+				// already terminated stream is a no-op that returns nil, and buffered messages are dropped
+				return
+			}
 			tp := tapA
 			if side == 's' {
 				tp = tapB
